@@ -219,6 +219,14 @@ fn agg_from(j: &J) -> Result<AggregateFunction, String> {
 }
 
 pub fn ir_to_json(ir: &IRNode) -> J {
+    let mut j = ir_to_json_inner(ir);
+    if let Some(m) = j.as_object_mut() {
+        m.insert("schema".to_string(), json!(ir.output_schema()));
+    }
+    j
+}
+
+fn ir_to_json_inner(ir: &IRNode) -> J {
     let w = ir.output_schema().len();
     match ir {
         IRNode::Scan { relation, schema } => json!({"op":"Scan","rel":relation,"schema":schema,"w":w}),
@@ -254,6 +262,13 @@ fn usizes(j: &J) -> Vec<usize> {
 fn names(n: usize) -> Vec<String> {
     (0..n).map(|i| format!("c{i}")).collect()
 }
+/// The node's recorded output schema when present (passes key on column names), else c0..c{n-1}.
+fn schema_or(j: &J, n: usize) -> Vec<String> {
+    match j["schema"].as_array() {
+        Some(a) if a.len() == n => a.iter().map(|x| x.as_str().unwrap_or("").to_string()).collect(),
+        _ => names(n),
+    }
+}
 
 /// JSON -> IRNode. Output schemas are synthesised as c0..c{w-1} from the "w" field
 /// (or derived bottom-up when absent), matching what the IR builder would declare.
@@ -272,7 +287,7 @@ pub fn ir_from_json(j: &J) -> Result<IRNode, String> {
         }
         "Map" => {
             let p = usizes(&j["proj"]);
-            Ok(IRNode::Map { input: bx("input")?, output_schema: names(p.len()), projection: p })
+            Ok(IRNode::Map { input: bx("input")?, output_schema: schema_or(j, p.len()), projection: p })
         }
         "Filter" => Ok(IRNode::Filter { input: bx("input")?, predicate: pred_from(&j["pred"])? }),
         "Join" => {
@@ -281,7 +296,7 @@ pub fn ir_from_json(j: &J) -> Result<IRNode, String> {
             let lw = l.output_schema().len();
             let rw = r.output_schema().len();
             let w = if lk.is_empty() && rk.is_empty() { lw + rw } else { lw + rw.saturating_sub(rk.len()) };
-            Ok(IRNode::Join { left: l, right: r, left_keys: lk, right_keys: rk, output_schema: names(w) })
+            Ok(IRNode::Join { left: l, right: r, left_keys: lk, right_keys: rk, output_schema: schema_or(j, w) })
         }
         "Distinct" => Ok(IRNode::Distinct { input: bx("input")? }),
         "Union" => Ok(IRNode::Union {
@@ -296,7 +311,7 @@ pub fn ir_from_json(j: &J) -> Result<IRNode, String> {
                 .map(|a| Ok((agg_from(&a[0])?, a[1].as_u64().unwrap_or(0) as usize)))
                 .collect::<Result<_, String>>()?;
             let w = g.len() + aggs.len();
-            Ok(IRNode::Aggregate { input: bx("input")?, group_by: g, aggregations: aggs, output_schema: names(w) })
+            Ok(IRNode::Aggregate { input: bx("input")?, group_by: g, aggregations: aggs, output_schema: schema_or(j, w) })
         }
         "Antijoin" => {
             let l = bx("left")?;
@@ -306,7 +321,7 @@ pub fn ir_from_json(j: &J) -> Result<IRNode, String> {
                 right: bx("right")?,
                 left_keys: usizes(&j["lk"]),
                 right_keys: usizes(&j["rk"]),
-                output_schema: names(w),
+                output_schema: schema_or(j, w),
             })
         }
         "Compute" => Ok(IRNode::Compute {
@@ -322,7 +337,7 @@ pub fn ir_from_json(j: &J) -> Result<IRNode, String> {
             let p = usizes(&j["proj"]);
             Ok(IRNode::FlatMap {
                 input: bx("input")?,
-                output_schema: names(p.len()),
+                output_schema: schema_or(j, p.len()),
                 projection: p,
                 filter_predicate: opt_pred("pred")?,
             })
@@ -334,7 +349,7 @@ pub fn ir_from_json(j: &J) -> Result<IRNode, String> {
                 right: bx("right")?,
                 left_keys: usizes(&j["lk"]),
                 right_keys: usizes(&j["rk"]),
-                output_schema: names(p.len()),
+                output_schema: schema_or(j, p.len()),
                 projection: p,
                 filter_predicate: opt_pred("pred")?,
             })
